@@ -71,6 +71,12 @@ pub fn parse_record<const H: usize>(
     }
 
     let payload = &bytes[payload_offset..payload_offset + payload_len];
+    if payload_len < H {
+        // A payload shorter than the fixed header cannot have been written: corrupt length
+        return Err(ReadError::Crc32cMismatch {
+            offset: offset as u64,
+        });
+    }
     let header: [u8; H] = payload[..H].try_into().unwrap();
     let compressed_data = &payload[H..];
 
